@@ -29,6 +29,10 @@ func init() {
 			"both keys derive from all their documented components; sharing is dominated by the query-only eligibility tests; every wait on a shared record can also leave through the participant's own context; " +
 			"and (context provenance) whether a follower can return the leader's cancellation verbatim. It does not decide byte equality of what participants receive.",
 		Mutants: []Mutant{
+			{Name: "the inbound leader no longer finishes its request when it panics (reverts the F64 fix)", File: resolveGo, Rule: "C11-R12", Key: "Resolver.ArenaResolveGraphQLResponse/leader-finish-survives-panic",
+				Old: "\t\t\t\tdefault:\n\t\t\t\t\tr.inboundRequestSingleFlight.FinishPanicked(inflight, fmt.Errorf(\"the leader of a de-duplicated request panicked: %v\", p))\n", New: "\t\t\t\tdefault:\n\t\t\t\t\t_ = fmt.Errorf(\"the leader of a de-duplicated request panicked: %v\", p)\n"},
+			{Name: "the subgraph leader finishes its item only on its return paths (positive control of the panic rule)", File: loaderGo, Rule: "C11-R12", Key: "Loader.loadByContext/leader-finish-survives-panic",
+				Old: "\tdefer l.singleFlight.Finish(item)\n\n\t// Perform the actual load\n\terr := l.loadByContextDirect(ctx, source, headers, input, res)\n", New: "\t// Perform the actual load\n\terr := l.loadByContextDirect(ctx, source, headers, input, res)\n\tdefer l.singleFlight.Finish(item)\n"},
 			{Name: "a fetch is a mutation only below a root type called Mutation (seeded change C11-13)", File: "v2/pkg/engine/plan/path_builder_visitor.go", Rule: "C11-R11", Key: "pathBuilderVisitor.resolveRootFieldOperationType/Mutation-from-schema-root",
 				Old: "\tif typeName == c.definition.Index.MutationTypeName.String() {\n", New: "\tif typeName == string(ast.DefaultMutationTypeName) {\n"},
 			{Name: "subgraph leader no longer records whether its own context had ended (reverts part of the F54 fix)", File: "v2/pkg/engine/resolve/loader.go", Rule: "C11-R10", Key: "subgraph/Loader.loadByContext/leader-records-its-context-state",
@@ -38,7 +42,7 @@ func init() {
 			{Name: "leader publishes a re-formatted error (seeded change C11-22)", File: "v2/pkg/engine/resolve/loader.go", Rule: "C11-R9", Key: "Loader.loadByContext/shared-error-keeps-chain",
 				Old: "\t\titem.err = err\n\t\t// the leader's own context ended", New: "\t\titem.err = fmt.Errorf(\"shared subgraph request failed: %v\", err)\n\t\t// the leader's own context ended"},
 			{Name: "FinishErr skips the wake-up when no follower is counted (seeded change C11-12)", File: "v2/pkg/engine/resolve/inbound_request_singleflight.go", Rule: "C11-R2", Key: "InboundRequestSingleFlight.FinishErr/every-exit-wakes-waiters",
-				Old: "\tshard.m.Delete(req.ID)\n\treq.Err = err\n", New: "\tshard.m.Delete(req.ID)\n\tif !req.HasFollowers() {\n\t\treturn\n\t}\n\treq.Err = err\n"},
+				Old: "\tshard.m.Delete(req.ID)\n\treq.Err = err\n\treq.leaderGone = req.leaderCtx", New: "\tshard.m.Delete(req.ID)\n\tif !req.HasFollowers() {\n\t\treturn\n\t}\n\treq.Err = err\n\treq.leaderGone = req.leaderCtx"},
 			{Name: "leader's client write error shared with the followers (seeded change C11-11)", File: resolveGo, Rule: "C11-R8", Key: "ArenaResolveGraphQLResponse/finish-err-not-from-client-write",
 				Old: "\tresp.ResponseWriteDuration = time.Since(responseWriteStart)\n\t// Extract data from the leader's context", New: "\tresp.ResponseWriteDuration = time.Since(responseWriteStart)\n\tif err != nil {\n\t\tr.inboundRequestSingleFlight.FinishErr(inflight, err)\n\t\tr.responseBufferPool.Release(responseArena)\n\t\treturn resp, err\n\t}\n\t// Extract data from the leader's context"},
 			{Name: "failed subgraph loads stay in the in-flight table (seeded change C07-13)", File: "v2/pkg/engine/resolve/subgraph_request_singleflight.go", Rule: "C11-R2", Key: "SubgraphRequestSingleFlight.Finish/removed-before-close",
@@ -74,6 +78,7 @@ func init() {
 func runC11(r *fw.Run) {
 	defer c11LeaderWriteErrorIsNotShared(r)
 	defer c11OperationTypeFromSchemaRoots(r)
+	defer c11LeaderFinishSurvivesPanic(r)
 	defer c11SharedErrorKeepsItsChain(r)
 	defer c11LeaderContextErrorsRecognised(r)
 	p := r.Prog
@@ -653,7 +658,7 @@ func runC11(r *fw.Run) {
 	}
 
 	// ---- R6 followers can always leave ---------------------------------------------------------------
-	r.Rule("C11-R6", "every receive from InflightRequest.Done / SingleFlightItem.loaded is an arm of a select that also has a <-ctx.Done() arm")
+	r.Rule("C11-R6", "every receive from InflightRequest.Done / SingleFlightItem.loaded is an arm of a select that also has a <-ctx.Done() arm (or a default arm: a poll does not wait)")
 	nRecv := 0
 	fw.EachNode(p.Funcs("resolve"), func(fi *fw.FuncInfo, n ast.Node, stack []ast.Node) {
 		u, ok := n.(*ast.UnaryExpr)
@@ -671,6 +676,9 @@ func runC11(r *fw.Run) {
 					_ = cc
 					for _, cl := range sel.Body.List {
 						comm := cl.(*ast.CommClause).Comm
+						if comm == nil {
+							okSel = true // a select with a default arm does not wait at all (a poll of "already finished?")
+						}
 						if es, isES := comm.(*ast.ExprStmt); isES {
 							if ru, isU := ast.Unparen(es.X).(*ast.UnaryExpr); isU {
 								if c, isC := ast.Unparen(ru.X).(*ast.CallExpr); isC {
@@ -1392,4 +1400,147 @@ func c11OperationTypeFromSchemaRoots(r *fw.Run) {
 		in.Run(nil)
 	}
 	r.Expect("C11-R11", "classifications of a root type as mutation / subscription in the planner", n, 2)
+}
+
+// c11LeaderFinishSurvivesPanic (R12): between becoming the leader and finishing, a leader runs code it does not control —
+// data sources, transports, hooks, authorizers, renderers, the client's writer. Servers recover a panic per request, so the
+// process lives on; but a leader that left by a panic without finishing leaves its followers waiting and its entry in the
+// table, where it captures every later identical request ("poisons the key"). In every function that acquires a
+// single-flight record (GetOrCreate / GetOrCreateItem) a deferred call that reaches a Finish* method of that single flight
+// (directly, or inside a deferred literal — typically under recover() != nil) is registered on the leader path before the
+// first call that dispatches dynamically (interface method, function value) or enters the engine (methods of Loader /
+// Resolvable / FieldAuthorization). Calls on the follower branch (the edge on which the record is known to be shared) are
+// not the leader's.
+func c11LeaderFinishSurvivesPanic(r *fw.Run) {
+	p := r.Prog
+	r.Rule("C11-R12", "in every function that acquires a single-flight record, a deferred call reaching Finish* of that single flight is registered on the leader path before the first dynamically dispatched call or call into the engine: a leader that panics still releases its followers and its table entry")
+	isSF := func(fn *types.Func, names ...string) bool {
+		if fn == nil {
+			return false
+		}
+		sig, _ := fn.Type().(*types.Signature)
+		if sig == nil || sig.Recv() == nil {
+			return false
+		}
+		rn := fw.RecvName(sig.Recv().Type())
+		if rn != "InboundRequestSingleFlight" && rn != "SubgraphRequestSingleFlight" {
+			return false
+		}
+		for _, n := range names {
+			if fn.Name() == n || (strings.HasSuffix(n, "*") && strings.HasPrefix(fn.Name(), strings.TrimSuffix(n, "*"))) {
+				return true
+			}
+		}
+		return false
+	}
+	n := 0
+	for _, fi := range p.Funcs("resolve") {
+		info := fi.Info()
+		var acq *ast.CallExpr
+		var recVar, sharedVar types.Object
+		fw.WalkAll(fi.Decl.Body, func(nd ast.Node) bool {
+			as, ok := nd.(*ast.AssignStmt)
+			if !ok || len(as.Rhs) != 1 {
+				return true
+			}
+			if c, isCall := ast.Unparen(as.Rhs[0]).(*ast.CallExpr); isCall && isSF(fw.Callee(info, c), "GetOrCreate", "GetOrCreateItem") {
+				acq = c
+				if id, isID := as.Lhs[0].(*ast.Ident); isID {
+					recVar = info.ObjectOf(id)
+				}
+				if len(as.Lhs) == 2 {
+					if id, isID := as.Lhs[1].(*ast.Ident); isID && types.Identical(info.TypeOf(id), types.Typ[types.Bool]) {
+						sharedVar = info.ObjectOf(id)
+					}
+				}
+			}
+			return true
+		})
+		if acq == nil || isSF(fi.Obj, "GetOrCreate", "GetOrCreateItem") {
+			continue
+		}
+		n++
+		reachesFinish := func(d *ast.DeferStmt) bool {
+			found := false
+			fw.WalkAll(d.Call, func(nd ast.Node) bool {
+				if c, ok := nd.(*ast.CallExpr); ok && isSF(fw.Callee(info, c), "Finish*") {
+					found = true
+				}
+				return true
+			})
+			return found
+		}
+		risky := func(c *ast.CallExpr) bool {
+			if fw.Builtin(info, c) != "" {
+				return false
+			}
+			fn := fw.Callee(info, c)
+			if fn == nil {
+				// a call of a function value (field, variable, parameter); conversions have no callee either
+				if tv, ok := info.Types[c.Fun]; ok && tv.IsType() {
+					return false
+				}
+				return true
+			}
+			sig, _ := fn.Type().(*types.Signature)
+			if sig == nil || sig.Recv() == nil {
+				return false
+			}
+			if _, isIface := sig.Recv().Type().Underlying().(*types.Interface); isIface {
+				return true
+			}
+			switch fw.RecvName(sig.Recv().Type()) {
+			case "Loader", "Resolvable", "FieldAuthorization":
+				return true
+			}
+			return false
+		}
+		bad := ""
+		in := fw.NewInterp(fi)
+		in.H = fw.Hooks{
+			Lit: func(l *ast.FuncLit, ctx fw.LitCtx, st *fw.State) fw.LitMode { return fw.LitSkip },
+			Cond: func(e ast.Expr, branch bool, st *fw.State) {
+				op, leaves := fw.NNF(info, e, branch)
+				if op != "atom" && op != "and" {
+					return
+				}
+				for _, a := range leaves {
+					// shared == true, or record.Data != nil: this participant is a follower
+					if id, isID := ast.Unparen(a.X).(*ast.Ident); isID && a.Kind == "True" && sharedVar != nil && info.ObjectOf(id) == sharedVar {
+						st.Set("follower")
+					}
+					if a.Kind == "NonNil" {
+						if sel, isSel := ast.Unparen(a.X).(*ast.SelectorExpr); isSel {
+							if id, isID := ast.Unparen(sel.X).(*ast.Ident); isID && recVar != nil && info.ObjectOf(id) == recVar {
+								st.Set("follower")
+							}
+						}
+					}
+				}
+			},
+			Node: func(nd ast.Node, st *fw.State) {
+				switch x := nd.(type) {
+				case *ast.DeferStmt:
+					if reachesFinish(x) {
+						st.Set("panic-safe")
+					}
+				case *ast.CallExpr:
+					if x == acq {
+						st.Set("acquired")
+						return
+					}
+					if !in.Final() || !st.Must("acquired") || st.May("follower") || st.Must("panic-safe") || bad != "" {
+						return
+					}
+					if risky(x) {
+						bad = p.Pos(x.Pos())
+					}
+				}
+			},
+		}
+		in.Run(nil)
+		r.Check(bad == "", "C11-R12", fi.Name()+"/leader-finish-survives-panic", p.Pos(acq.Pos()), "the leader in "+fi.Name()+" has registered a deferred finish before it runs code that can panic",
+			"the call at "+bad+" runs on the leader path before any deferred call that reaches Finish*: if it panics (user-supplied data source, hook, authorizer, writer) the record is never finished — the followers wait until their own contexts end and the entry stays in the table, so every later identical request becomes a follower of a leader that no longer exists")
+	}
+	r.Expect("C11-R12", "functions that acquire a single-flight record", n, 2)
 }
